@@ -1,4 +1,7 @@
 import CCT.Model.Cli
+import CCT.Props.C10
+import CCT.Props.C08
+import CCT.Lemmas.GpgPath
 import CCT.Props.C05
 import CCT.Props.C03
 /-!
@@ -15,7 +18,6 @@ def LibraryAccepts (C : CryptoFns) (trusted untrusted : J) : Prop :=
     ((isRootType ty = true ∧ verifyRootJ C trusted untrusted = .ok ()) ∨
      (isRootType ty = false ∧ ∃ name, ty = .str name ∧ verifyDelegationJ C name untrusted trusted false = .ok ()))
 
-theorem cct_ne (e : PyErr) (h : e.isCct = true) : True := trivial
 
 /-- **exit status zero and success reported if and only if both files load and the library accepts** — for each way the tool can be started -/
 theorem exit_zero_iff (C : CryptoFns) (ep : EntryPoint) (tf uf : Option Bytes) :
@@ -122,5 +124,81 @@ theorem sign_bad_key_untouched (C : CryptoFns) (ep : EntryPoint) (repodata : Opt
     (h : isHexKeyJ (.str (asciiLower (pyStrip t))) = .ok false) :
     exitStatus ep (cliSignArtifacts C repodata (some t)).1 ≠ 0 ∧ (cliSignArtifacts C repodata (some t)).2 = repodata := by
   simp [cliSignArtifacts, h, exitStatus]
+
+/-! ## the GPG subcommands (`gpg-sign`, `gpg-key-lookup`) -/
+
+/-- **gpg-sign exits zero only if it actually signed** (and then the file is what the GPG signing path produced); any failure leaves the file as it was -/
+theorem gpg_sign_zero_iff_signed (G : GpgBackend) (sslib : Bool) (ep : EntryPoint) (file : Option Bytes) (fprArg : PStr) :
+    (exitStatus ep (cliGpgSign G sslib file fprArg).1 = 0 ↔
+      ∃ b, signRootMdFileViaGpg G sslib file (.str (stripAllSpaceLower fprArg)) = .ok b ∧ (cliGpgSign G sslib file fprArg).2 = some b) ∧
+    (exitStatus ep (cliGpgSign G sslib file fprArg).1 ≠ 0 → (cliGpgSign G sslib file fprArg).2 = file) := by
+  unfold cliGpgSign
+  cases h : signRootMdFileViaGpg G sslib file (.str (stripAllSpaceLower fprArg)) with
+  | ok b => simp [exitStatus]
+  | error e => simp [exitStatus]
+
+/-- without the optional dependency gpg-sign and gpg-key-lookup fail (status 1) and touch nothing -/
+theorem gpg_commands_need_dependency (G : GpgBackend) (ep : EntryPoint) (file : Option Bytes) (fprArg : PStr) :
+    exitStatus ep (cliGpgKeyLookup G false fprArg).1 = 1 ∧
+    (file ≠ none → (∃ v, loadFile file = .ok v) → exitStatus ep (cliGpgSign G false file fprArg).1 = 1 ∧ (cliGpgSign G false file fprArg).2 = file) := by
+  constructor
+  · simp [cliGpgKeyLookup, fetchKeyvalFromGpg, checkSslib, bind, Except.bind, exitStatus]
+  · rintro _ ⟨v, hv⟩
+    simp [cliGpgSign, signRootMdFileViaGpg, hv, signRootMdDictViaGpg, checkSslib, bind, Except.bind, exitStatus]
+
+/-- **gpg-sign, end to end**: for a strict-UTF-8 file (any layout) that loads to an envelope, a conforming signer for the key with fingerprint `fpr`, and any spelling of
+that fingerprint on the command line (case, whitespace), `gpg-sign` exits with status 0 from every entry point and leaves a file that loads to
+an envelope which verifies in OpenPGP mode with the signer's raw public key authorized -/
+theorem gpg_sign_end_to_end (C : Crypto) (G : GpgBackend) (ep : EntryPoint) (fpr fprArg : PStr) (seed : Bytes) (hs : seed.length = 32)
+    (hf : HexN 40 (.str fpr)) (harg : stripAllSpaceLower fprArg = fpr) (hG : C10.ConformingSigner C.toCryptoFns G fpr seed)
+    (b : Bytes) (hstrict : NoSurLead b) (env : J) (hload : loadBytes b = some env) (entries : List (PStr × J)) (signed : J) (hp : EnvParts env entries signed) :
+    ∃ b' env'', cliGpgSign G true (some b) fprArg = (.returned none, some b') ∧ exitStatus ep (cliGpgSign G true (some b) fprArg).1 = 0 ∧
+      loadBytes b' = some env'' ∧
+      verifySignableJ C.toCryptoFns env'' (.arr [.str (C09.pubHex C.toCryptoFns seed)]) (.int 1) true = .ok () := by
+  have hwf : env.WF := load_wf hstrict hload
+  obtain ⟨f, hfe, hlen, hall⟩ := hf
+  cases hfe
+  have hnorm := normalize_of_hex40 fpr hall
+  obtain ⟨env', hsign, hver⟩ := C10.gpg_path_interoperates C G fpr seed hs ⟨fpr, rfl, hlen, hall⟩ hnorm hG env entries signed hp
+  -- the explicit result, for well-formedness
+  obtain ⟨hcs, hq⟩ := hG
+  obtain ⟨hdr, hne, hb, hsig⟩ := hcs (ser signed)
+  obtain ⟨hsg, top, rfl, h1, h2⟩ := hp
+  have hfp := (checkGpgFingerprint_iff (.str fpr)).mpr ⟨fpr, rfl, hlen, hall⟩
+  let entry : J := .obj [(ps! "other_headers", .str (hexOfBytes hdr)), (ps! "signature", .str (hexOfBytes (C.sign seed (gpgDigest C.toCryptoFns (ser signed) hdr))))]
+  have hcomp : signRootMdDictViaGpg G true (.obj top) (.str fpr) =
+      .ok (.obj (dictSet top (ps! "signatures") (.obj (dictSet entries (C09.pubHex C.toCryptoFns seed) entry)))) := by
+    simp only [signRootMdDictViaGpg, checkSslib, if_true, okU, bind, Except.bind, hsg, Bool.not_true, Bool.false_eq_true, if_false,
+      dictIndex_some h2, dictIndex_some h1, signViaGpg, hfp, checkBytesLike, strOf_str, hsig, fetchKeyvalFromGpg, hnorm, hq, pure, Except.pure,
+      C09.pubHex, entry]
+  rw [hcomp] at hsign
+  cases hsign
+  -- well-formedness of the new envelope
+  obtain ⟨hwm, hnd⟩ := hwf
+  have hent : (J.obj entries).WF := wf_member (kvs := top) ⟨hwm, hnd⟩ h1
+  obtain ⟨hem, hen⟩ := hent
+  have hentry : entry.WF := by
+    have k1 : StrOK (ps! "other_headers") := strOK_of_small _ (by decide)
+    have k2 : StrOK (ps! "signature") := strOK_of_small _ (by decide)
+    refine ⟨⟨k1, strOK_lowerhex _ (hexOfBytes_lower _), k2, strOK_lowerhex _ (hexOfBytes_lower _), trivial⟩, ?_⟩
+    simp only [List.map_cons, List.map_nil]
+    decide
+  have hpk : StrOK (C09.pubHex C.toCryptoFns seed) := by
+    obtain ⟨s, e, _, ha⟩ := C09.pubHex_key C seed hs
+    cases e
+    exact strOK_lowerhex _ ha
+  have hwf' : (J.obj (dictSet top (ps! "signatures") (.obj (dictSet entries (C09.pubHex C.toCryptoFns seed) entry)))).WF := by
+    have k3 : StrOK (ps! "signatures") := strOK_of_small _ (by decide)
+    have hinner : (J.obj (dictSet entries (C09.pubHex C.toCryptoFns seed) entry)).WF := ⟨wfm_dictSet _ _ hpk hentry _ hem, dictSet_nodup _ _ _ hen⟩
+    exact ⟨wfm_dictSet _ _ k3 hinner _ hwm, dictSet_nodup _ _ _ hnd⟩
+  have hfile : signRootMdFileViaGpg G true (some b) (.str (stripAllSpaceLower fprArg)) =
+      .ok (ser (.obj (dictSet top (ps! "signatures") (.obj (dictSet entries (C09.pubHex C.toCryptoFns seed) entry))))) := by
+    rw [harg]
+    simp only [signRootMdFileViaGpg, loadFile, hload, bind, Except.bind, hcomp, pure, Except.pure]
+  refine ⟨_, _, ?_, ?_, C08.load_write _ hwf', ?_⟩
+  · simp only [cliGpgSign, hfile]
+  · simp only [cliGpgSign, hfile, exitStatus]
+  · rw [verifySignable_canon _ _ _ _ _ hwf']
+    exact hver
 
 end CCT.C17
